@@ -3,7 +3,7 @@
    real reader produced for the source, the text the real code wrote, the blocks the real
    reader produces for that text, and the text written the second time.
    Also the classifiers of the known-finding classes. *)
-From IweV Require Export Check_Lib.
+From IweV Require Export Check_Lib SectionsSpec.
 Local Open Scope string_scope.
 Local Open Scope list_scope.
 
@@ -476,10 +476,36 @@ Definition base_classes (c : libcase) (o : note_obs) : list N :=
 
 Definition has_kinds (c : libcase) : bool := lib_nontrivial c.
 
+(* correspondence stage 7: the specification of SectionsSpec.v against the transliterated cursor
+   machine (whose arena is compared with the implementation's in stage 1): for every note whose
+   blocks are in the claimed class, the tree read back from the arena, ids aside and before any
+   title refresh, is the tree the specification gives *)
+Definition spec_corr (c : libcase) : list N :=
+  match model_graph c with
+  | Panic _ => []
+  | Ok g =>
+      flag 7 (forallb (fun n =>
+        match ni_blocks n with
+        | Ok bs =>
+            if forallb plain_items bs then
+              let key := key_from_file_name (ni_name n) in
+              match alookup key (gr_keys g) with
+              | Some root =>
+                  match collect_raw (gr_arena g) root with
+                  | Ok (Some t) => tree_eqb_noid t (spec_tree key bs)
+                  | _ => false
+                  end
+              | None => false
+              end
+            else true
+        | Panic _ => true
+        end) (lc_notes c))
+  end.
+
 Definition run_notes (c : libcase) (preds : note_obs -> list N) (classes : note_obs -> list N) : verdict :=
   let per := map (fun o => (preds o, classes o)) (lo_notes c) in
   let '(f, k) := combine_notes per in
-  V (lib_corr c) f k (lib_nontrivial c).
+  V (lib_corr c ++ spec_corr c) f k (lib_nontrivial c).
 
 Definition run_C01 (c : libcase) : verdict :=
   run_notes c (fun o => flag 1 (p_atoms c o) ++ flag 2 (p_meta c o)) (base_classes c).
